@@ -102,6 +102,15 @@ Theorem C39_source_facts :
   gen_forward_failure_deletes_that_id = true /\
   gen_response_restores_requester_id = true /\
   gen_own_ids_from_same_counter = true /\
-  gen_response_checks_pending_before_forwarded = true.
+  gen_response_checks_pending_before_forwarded = true /\
+  (* every reply the agent itself sends to a requester carries the requester's id *)
+  gen_replies_to_requester_use_its_id = true /\
+  (* payloads are values: the encoders of the control frames return freshly
+     allocated buffers (no pooled or shared buffer escapes), so a frame that
+     waits for a busy link cannot be rewritten by another handler - this is
+     what lets [cstep] treat MReq / MResp as immutable messages *)
+  gen_control_request_encode_returns_fresh_buffer = true /\
+  gen_control_response_encode_returns_fresh_buffer = true /\
+  gen_protocol_package_has_no_buffer_pool = true.
 Proof. repeat split; reflexivity. Qed.
 Print Assumptions C39_source_facts.
